@@ -1,0 +1,44 @@
+//go:build verif
+
+package mapset
+
+// Lock-event hook for the verification harness (build tag verif only).
+// The methods below shadow the embedded RWMutex's, so every lock operation the
+// set performs on itself is reported to VerifLockHook: phase 0 = about to block
+// on the acquisition, phase 1 = done. The hook may park the calling goroutine.
+
+var VerifLockHook func(set any, op string, phase int)
+
+func (set *threadSafeSet) Lock() {
+	if h := VerifLockHook; h != nil {
+		h(set, "Lock", 0)
+	}
+	set.RWMutex.Lock()
+	if h := VerifLockHook; h != nil {
+		h(set, "Lock", 1)
+	}
+}
+
+func (set *threadSafeSet) Unlock() {
+	set.RWMutex.Unlock()
+	if h := VerifLockHook; h != nil {
+		h(set, "Unlock", 1)
+	}
+}
+
+func (set *threadSafeSet) RLock() {
+	if h := VerifLockHook; h != nil {
+		h(set, "RLock", 0)
+	}
+	set.RWMutex.RLock()
+	if h := VerifLockHook; h != nil {
+		h(set, "RLock", 1)
+	}
+}
+
+func (set *threadSafeSet) RUnlock() {
+	set.RWMutex.RUnlock()
+	if h := VerifLockHook; h != nil {
+		h(set, "RUnlock", 1)
+	}
+}
